@@ -134,8 +134,7 @@ def check_lazy(ctx, case, x_eager, n_orders):
         ctx.count("lazy." + status.split(":")[0] + (".partial" if partial else ".complete"))
         if graph is None:
             if status.startswith("error"):
-                dbl = case.get("suite") and not case["suite"].get("path") and any(
-                    sum(1 for o in t["objs"].values() if o["get"] and not o["get_state"]) >= 2 for t in case["suite"]["tests"])
+                dbl = gl.double_clone_suite(case)
                 ctx.violate("double-clone" if dbl else "lazy-parse-raises", f"lazy expansion raised {status[:300]}", lc)
             continue
         xl = gl.extract(graph)
@@ -196,8 +195,7 @@ def run_cases(ctx, cases, n_orders=2):
         ctx.count(f"workers={len(case['nets'])}")
         if graph is None:
             if status.startswith("error"):
-                dbl = case.get("suite") and not case["suite"].get("path") and any(
-                    sum(1 for o in t["objs"].values() if o["get"] and not o["get_state"]) >= 2 for t in case["suite"]["tests"])
+                dbl = gl.double_clone_suite(case)
                 if status.startswith("error:ValueError:Detected") or status.startswith("error:AssertionError"):
                     ctx.violate("double-clone" if dbl else "parser-rejects-own-graph", status[:300], dict(case))
                 else:
